@@ -12,7 +12,7 @@ def decoder_for(codec):
 
 
 def gen_stream_workload(r, max_values=4, small=False, force_codec=None, allow_f2=None,
-                        constraints=False):
+                        constraints=False, constructed_default=False):
     codec = force_codec or r.choice(CODEC_CHOICES)
     cfg = U.GenCfg()
     cfg.max_depth = r.choice([1, 2, 3, 3]) if not small else r.choice([1, 2])
@@ -35,6 +35,7 @@ def gen_stream_workload(r, max_values=4, small=False, force_codec=None, allow_f2
     cfg.allow_tags = r.random() < 0.85
     cfg.allow_implicit = r.random() < 0.7
     cfg.allow_constraints = constraints
+    cfg.allow_constructed_default = constructed_default
     indef = ('indef' in codec) or codec == 'cer'
     if allow_f2 is None:
         # explicitly tagged non-string primitives in indefinite mode are not well framed (F2)
@@ -208,6 +209,13 @@ def stream_shrink_candidates(plan):
     """Smaller plans, most aggressive first.  Pure function of the plan."""
     w = plan['workload']
     steps = plan.get('steps', [])
+    if plan.get('partitions'):
+        if plan.get('only_mask') is None:
+            for mask in range(1 << 10):
+                c = copy.deepcopy(plan)
+                c['only_mask'] = mask
+                yield c
+        return
     # 0. a sweep collapses to the failing split (the caller fills sweep_k through detail; try all small k)
     if plan.get('sweep'):
         for k in range(1, 400):
